@@ -42,7 +42,12 @@ def run_case(case, sched_seed=None, choose=None, simultaneous=0.2, slow=None, in
         if inline is not None:
             ctl.inline_plan = [list(x) for x in inline[ti]] if ti < len(inline) else []
         tz.tawazi.cfg.TAWAZI_PROFILE_ALL_NODES = bool(case.get("profile"))
-        tz.tawazi.cfg.RUN_DEBUG_NODES = bool(case.get("run_debug"))
+        run_debug = bool(case.get("run_debug")) if not (case.get("mode") == "call_toggle" and ti == 1) else not bool(case.get("run_debug"))
+        tz.tawazi.cfg.RUN_DEBUG_NODES = run_debug
+        try:
+            dag_cp = dict(d.graph_ids.compound_priority)
+        except BaseException:  # noqa: BLE001
+            dag_cp = None
         try:
             st = tz.run_controlled(th, ctl, is_async=case["is_async"])
         finally:
@@ -60,7 +65,7 @@ def run_case(case, sched_seed=None, choose=None, simultaneous=0.2, slow=None, in
             elif curfull is not None:
                 curfull.append(e)
         for si, seg in enumerate(sched_cases.segments(trace, ctl)):
-            dcfg, diffs = sched_cases.declared_cfg(case, seg["cfg"])
+            dcfg, diffs = sched_cases.declared_cfg(case, seg["cfg"], dag_cp=dag_cp, run_debug=run_debug)
             s = dict(cfg=dcfg, labels=None, end=None, unparsable=None, monitor=[], declared_diffs=diffs)
             try:
                 labels, end = sched_cases.to_labels(seg["evs"])
